@@ -231,8 +231,12 @@ pub fn native_sorted<T>(
                         let key = vm.run_function(key_fn)?;
                         result.push((key, k, v));
                     }
+                    // the sort needs a total order: keys that compare with nothing (NaN) go last,
+                    // other incomparable keys count as equal and keep their order
+                    let is_nan = |v: &Value| matches!(v, Value::Real(x) if x.is_nan());
                     result.sort_by(|(a, _, _), (b, _, _)| {
-                        a.partial_cmp(b).unwrap_or(std::cmp::Ordering::Equal)
+                        a.partial_cmp(b)
+                            .unwrap_or_else(|| is_nan(a).cmp(&is_nan(b)))
                     });
 
                     let mut out = vm.init_table()?;
